@@ -1,5 +1,5 @@
 (* C06 — static graph hashes of dataset-wide layers identify the function they key. *)
-From Connectome Require Import Values Attrs VM Edges EdgesGen MiscGen HashSound GraphHashModel GraphHash Examples.
+From Connectome Require Import Values Attrs VM Edges EdgesGen MiscGen HashSound GraphHashModel GraphHash StaticHash Examples.
 Local Open Scope list_scope.
 
 (* The static hash of a Merge switch pins the id-to-dataset routing (the repaired SwitchEdge._hash_graph; with the
@@ -41,6 +41,40 @@ Theorem C06_pinned_switch_refuted :
     lookup t (VStr "2") <> lookup t' (VStr "2").
 Proof. exact switch_graph_hash_pinned_refuted. Qed.
 Print Assumptions C06_pinned_switch_refuted.
+
+(* Whole sub-pipelines.  [sden apply id hs] reads a static hash back as a value depending on the entry id (the
+   placeholder stands for the id, a SwitchEdge node for "look the id up in the stored routing table and take that
+   branch").  For every graph of function, constant, identity, product, cache, barrier, hash-by-value, switch and
+   CheckIds edges with one input: if the static hash of a node is hs, then on every id for which the sub-pipeline's
+   value is defined that value is [sden apply id hs].  (An impure edge has no static hash.) *)
+Theorem C06_static_hash_sound :
+  forall apply id raises g i0,
+  (forall n e ps, nth n g Leaf = Inner e ps -> edge_ok e (List.length ps) = true /\ tables_ok e) ->
+  forall F F' n hs hd v,
+  hash_graph g [i0] F n = Some hs -> sem apply raises g [(i0, id)] F' n = Some (hd, v) -> sden apply id hs = Some v.
+Proof. exact static_sound. Qed.
+Print Assumptions C06_static_hash_sound.
+
+(* ... hence equal static hashes, of any two sub-pipelines, give the same function of the entry id *)
+Theorem C06_equal_static_hash_same_function :
+  forall apply id r1 r2 g1 i1 g2 i2 F1 F2 F1' F2' n1 n2 hs h1 h2 v1 v2,
+  (forall n e ps, nth n g1 Leaf = Inner e ps -> edge_ok e (List.length ps) = true /\ tables_ok e) ->
+  (forall n e ps, nth n g2 Leaf = Inner e ps -> edge_ok e (List.length ps) = true /\ tables_ok e) ->
+  hash_graph g1 [i1] F1 n1 = Some hs -> hash_graph g2 [i2] F2 n2 = Some hs ->
+  sem apply r1 g1 [(i1, id)] F1' n1 = Some (h1, v1) -> sem apply r2 g2 [(i2, id)] F2' n2 = Some (h2, v2) -> v1 = v2.
+Proof. exact static_hash_identifies. Qed.
+Print Assumptions C06_equal_static_hash_same_function.
+
+(* the reading, computed: a Merge of A and B routes id "2" to A under the first table and to B under the second *)
+Example C06_example_reading :
+  let g t := [Leaf; Inner (EFunc "A" 1 [] []) [0]; Inner (EFunc "B" 1 [] []) [0]; Inner (ESwitch t 2) [0; 1; 2]] in
+  let rd t := match hash_graph (g t) [0] 5 3 with Some hs => sden ex_apply (VStr "2") hs | None => None end in
+  rd [(VStr "1", 0); (VStr "2", 0); (VStr "3", 1)] = Some (VApp "A" [VStr "2"] [])
+  /\ rd [(VStr "3", 1); (VStr "2", 1); (VStr "1", 0)] = Some (VApp "B" [VStr "2"] [])
+  /\ option_map snd (sem ex_apply (fun _ _ _ => false) (g [(VStr "3", 1); (VStr "2", 1); (VStr "1", 0)]) [(0, VStr "2")] 5 3)
+     = Some (VApp "B" [VStr "2"] []).
+Proof. vm_compute. auto. Qed.
+Print Assumptions C06_example_reading.
 
 (* Non-vacuity: the two routings of the property text over the same two branches now get different static hashes *)
 Example C06_example_routings :
